@@ -28,3 +28,23 @@ func VerifSpanOrder(t *Table) []int {
 
 // VerifNumCells is the number of cells added so far.
 func VerifNumCells(t *Table) int { return len(t.cells) }
+
+// VerifSpanOrderOf is VerifSpanOrder for a bare sequence of spans (the cells of a table that
+// is built inside another package, e.g. by benchtab.Table.ToText).
+func VerifSpanOrderOf(spans []int) []int {
+	type tagged struct {
+		span, idx int
+	}
+	ps := make([]tagged, len(spans))
+	for i, s := range spans {
+		ps[i] = tagged{s, i}
+	}
+	sort.Slice(ps, func(i, j int) bool {
+		return ps[i].span < ps[j].span
+	})
+	out := make([]int, len(ps))
+	for i, p := range ps {
+		out[i] = p.idx
+	}
+	return out
+}
